@@ -128,9 +128,11 @@ func (s *Scope) Invoke(function interface{}, opts ...InvokeOption) (err error) {
 			Reason: err,
 		}
 	}
+	// See constructorNode.Call: a panic(nil) may be recovered as nil.
+	returned := false
 	if s.recoverFromPanics {
 		defer func() {
-			if p := recover(); p != nil {
+			if p := recover(); p != nil || !returned {
 				err = PanicError{
 					fn:    digreflect.InspectFunc(function),
 					Panic: p,
@@ -159,11 +161,12 @@ func (s *Scope) Invoke(function interface{}, opts ...InvokeOption) (err error) {
 
 	}
 
-	returned := s.invokerFn(reflect.ValueOf(function), args)
-	if len(returned) == 0 {
+	results := s.invokerFn(reflect.ValueOf(function), args)
+	returned = true
+	if len(results) == 0 {
 		return nil
 	}
-	if last := returned[len(returned)-1]; isError(last.Type()) {
+	if last := results[len(results)-1]; isError(last.Type()) {
 		if err, _ := last.Interface().(error); err != nil {
 			return err
 		}
